@@ -17,7 +17,7 @@ VERIF = os.path.dirname(os.path.dirname(os.path.abspath(__file__)))
 # evidence directories so that a seeded tree can be checked while the registered checks run against /repo.
 SANDBOX = os.environ.get("VERIF_SANDBOX", "")
 SCRATCH_ROOT = os.environ.get("VERIF_SCRATCH", "/var/tmp/kyrodb-verif" + ("-" + SANDBOX if SANDBOX else ""))
-HARNESS_DIR = os.path.join(VERIF, "harness")
+HARNESS_DIR = os.environ.get("VERIF_DEV_HARNESS_DIR") or os.path.join(VERIF, "harness")  # env: development aid only
 BUILD_DIR = os.path.join(VERIF, "build", "sandbox-" + SANDBOX) if SANDBOX else os.path.join(VERIF, "build")
 
 TRACING_MACROS = ["trace", "debug", "info", "warn", "error"]
